@@ -1,6 +1,8 @@
 --------------------------- MODULE Gen_SortedIndex ---------------------------
 (* Generator of C17: operation histories for harness/src/bin/sorted_driver.rs - adds with an   *)
-(* abstract sort value (0..NK-1, or Missing), deletes by term and by id inside the             *)
+(* abstract sort value (0..NK-1, or Missing) and a shape j of the indexed JSON object (0 none,  *)
+(* 1 text + i64 / bool / date / f64 leaves, 2 text leaf only, 3 non-text leaves only), deletes  *)
+(* by term and by id inside the                                                                 *)
 (* transaction, commits, merges of everything or of a window of two segments.  lib/props/c17.py *)
 (* maps the abstract values to concrete ones of every key type (extremes at both ends) and     *)
 (* runs each history for every type, direction and segment-cut setting.                        *)
@@ -15,8 +17,8 @@ Go == ~fin /\ Len(hist) < MaxOps
 
 GNext ==
   \/ /\ Go /\ nd < MaxDocs
-     /\ \E t \in Terms : \E k \in (0..(NK - 1)) \cup {Missing} :
-          H([op |-> "add", id |-> nd + 1, t |-> t, k |-> k])
+     /\ \E t \in Terms : \E k \in (0..(NK - 1)) \cup {Missing} : \E j \in 0..3 :
+          H([op |-> "add", id |-> nd + 1, t |-> t, k |-> k, j |-> j])
      /\ nd' = nd + 1 /\ UNCHANGED fin
   \/ /\ Go /\ nd > 0
      /\ \/ \E t \in Terms : H([op |-> "del", pred |-> [k |-> "term", t |-> t]])
